@@ -24,11 +24,13 @@ THEOREMS = {"Proofs.Props.C07": ["MsPack.Cab.C07_written_le_declared", "MsPack.C
                                          "MsPack.Cab.C07_count_law_mszip", "MsPack.Cab.C07_count_law_lzx", "MsPack.Cab.C07_count_law_qtm", "MsPack.Cab.C07_decOk_kept", "MsPack.Cab.C07_initDec_decOk",
                                          "MsPack.Cab.C07_cab_written_le", "MsPack.Cab.C07_cab_fresh_written_le", "MsPack.Cab.C07_cab_ok_complete_partial",
                                          "MsPack.Cab.C07_cab_ok_complete", "MsPack.Cab.C07_cab_cache_kept", "MsPack.Cab.C07_cab_fresh_ok_complete", "MsPack.Cab.C07_cab_read_means_feeder_failed",
+                                         "MsPack.Cab.C07_cab_extract_counts", "MsPack.Cab.C07_cab_session_counts", "MsPack.Cab.C07_cab_session_counts_fresh", "MsPack.Cab.C07_cab_anymode_ok_len_partial", "MsPack.Cab.memberCheck_filelen",
                                          "MsPack.Cab.C07_cab_mszip_ok_complete", "MsPack.Cab.C07_cab_mszip_cache_kept", "MsPack.Cab.C07_cab_mszip_fresh_ok_complete", "MsPack.Cab.C07_cab_mszip_read_means_feeder_failed",
                                          "MsPack.Chm.C07_lzxBound", "MsPack.Chm.C07_chm_written_le_unconditional",
-                                         "MsPack.Oab.C07_lzxCount", "MsPack.Oab.C07_oab_written_le_target_unconditional", "MsPack.Oab.C07_oab_patch_written_le_target_unconditional"]}
+                                         "MsPack.Oab.C07_lzxCount", "MsPack.Oab.C07_oab_written_le_target_unconditional", "MsPack.Oab.C07_oab_patch_written_le_target_unconditional"],
+            "Proofs.Props.C07ChmComplete": ["MsPack.Chm.C07_chm_sec1_ok_asked", "MsPack.Chm.C07_chm_sec1_ok_complete", "MsPack.Chm.C07_chm_ok_complete", "MsPack.Chm.C07_chm_sec1_ok_short"]}
 ASSUMPTIONS = ["the counting law (never more than asked; OK => exactly as many as asked) is a theorem for the stored, MSZIP, LZX and Quantum decoders (C07Decoders: every source, fuel and state; MSZIP's second half needs its 32 KiB window invariant - with an empty window the model returns OK with nothing written), so: CAB extract never writes more than declared for EVERY compression type, any input, mode and cache satisfying the decoder invariant (which init establishes and every call keeps) - no decoder hypothesis left; CHM compressed members: written <= declared unconditionally; OAB full files and patches: written <= TargetSize and OK => exactly TargetSize unconditionally. "
-               "OK => exactly declared in strict mode: unconditional for EVERY compression type (C07_cab_ok_complete, over a joint decoder/feeder invariant - not salvage, a sticky READ in the decoder goes with a recorded feeder error, buffers present - that fresh states satisfy and extract hands back whatever the status, C07_cab_cache_kept); salvage mode: not stated (read errors are ignored there by design); CHM compressed members: OK => complete not stated",
+               "OK => exactly declared in strict mode: unconditional for EVERY compression type (C07_cab_ok_complete, over a joint decoder/feeder invariant - not salvage, a sticky READ in the decoder goes with a recorded feeder error, buffers present - that fresh states satisfy and extract hands back whatever the status, C07_cab_cache_kept); both halves as ONE invariant statement over whole sessions: any list of strict-mode extract() calls threaded through the cache from a fresh decompressor, every call: written <= declared and OK => exactly declared (C07_cab_session_counts_fresh); salvage mode: the upper bound holds, OK => complete is FALSE by design (kernel-checked example: a stored folder of one 3-byte block, member declared 5: strict DATAFORMAT, salvage OK with 0 bytes - read errors are ignored there) - what survives is stated under the read-error law (C07_cab_anymode_ok_len_partial); CHM compressed members (C07ChmComplete): OK => exactly the number of bytes chmd_extract asked the decoder for, which is the declared length whenever the member lies within the section's uncompressed length; for a member reaching beyond it chmd asks for one byte more than there is and relies on the decoder failing - a counting law cannot give that, it stays with the oracle",
                "all of it is validated by the written-vs-declared oracle on the implementation and by model agreement"]
 RULE = ("every extract/decompress call of: well-formed generated archives (cab, chm, oab), 4-6 malformed variants of each, the shipped fixtures incl. crashers; "
         "strict and salvage mode; short-write faults; observable = (declared, bytes accepted by write, status); non-trivial = a call with declared > 0; distinct by archive bytes + parameters")
